@@ -36,7 +36,7 @@ CHECKS["C16"] = dict(
           "or with filter.New(n,p)+Add for n in 1..100000 and p in (0,1) incl. 1e-9 and 0.999999; every member must be "
           "contained. False-positive rate is not judged. Non-trivial: >= 2 distinct user keys of which >= 1 contains "
           "'@' or a non-UTF-8 byte; distinct = SHA-256 of the case JSON. Filters rebuilt by recovery are covered by the "
-          "table-level leg (TestC16Levels) once flushed tables are recovered."),
+          "table-level leg (TestC16Levels: after every flush, compaction and recovery of generated level-manager histories every key a table physically holds must pass that table's filter)."),
     assumptions=["filter.New is called with n >= 1 and 0 < p < 1 (it panics otherwise by design)",
                  "sets above 160000 entries are out of budget"],
     level_text=("Generated-input search with an exact one-directional oracle (no false negative); this is the whole "
@@ -46,7 +46,7 @@ CHECKS["C16"] = dict(
            dict(pkg="lvl", test="TestC16Levels", shards=4, checks=40, timeout=1200)],
     thorough=[dict(pkg="pure", test="TestC16", shards=16, checks=12000, timeout=1200),
               dict(kind="fuzz", pkg="pure", fuzz="FuzzC16", test="TestC16", fuzztime=60),
-              dict(pkg="lvl", test="TestC16Levels", shards=16, checks=1500, timeout=1200)],
+              dict(pkg="lvl", test="TestC16Levels", shards=16, checks=160, timeout=14400)],
 )
 
 CHECKS["C13"] = dict(
@@ -62,7 +62,7 @@ CHECKS["C13"] = dict(
           "waiters whose target is covered must have returned nil, nil returns imply DoneUntil >= t, cancelled waiters "
           "return the context error. concurrent leg (race detector on): 2..8 goroutines take indices under a mutex like "
           "the oracle, finish them later (partly from other goroutines), read DoneUntil while their index is open, "
-          "wait for earlier indices. Non-trivial (sequential): out-of-order completion AND a repeated index with two "
+          "wait for earlier indices (single waiters and crowds of 16..200 waiters on one index, each checking DoneUntil the moment it is released). Non-trivial (sequential): out-of-order completion AND a repeated index with two "
           "outstanding begins AND a waiter released by a later Done; (concurrent): shared indices, strict-bound reads and "
           "waiters all occurred. Liveness verdicts use a 30 s watchdog and convict only if the goroutine dump shows the "
           "waiter parked in select and the consumer idle; otherwise the run is inconclusive."),
@@ -90,7 +90,8 @@ CHECKS["C11"] = dict(
           "binary and empty strings, nil vs empty values, both tombstone flags, versions over the full int64 range; "
           "0..400 entries; block sizes 1..4096 and 1 MiB. Oracles: decode(encode(x)) == x field by field; alias: the bytes an "
           "encoder returned are snapshotted, further encoders/decoders run in the SAME goroutine, the bytes must be "
-          "unchanged. A second leg draws key/value lengths in {65536,65537,70000,131072,200000}. A third leg (race "
+          "unchanged. A second leg draws key/value lengths in {65536,65537,70000,131072,200000} and, one case in 12, one value of 5/20/40 MiB "
+          "followed by small round trips of every codec in the same goroutine (what the codecs keep from a huge buffer). A third leg (race "
           "detector) runs 2..5 goroutines encoding, decoding, building tables and appending to one wal, each verifying "
           "its own round trips and re-decoding a retained earlier result. Non-trivial: >= 2 consecutive entries sharing a "
           "first byte and >= 1 empty/binary key or value (index: >= 2 entries; alias: second encoding at least as long "
@@ -103,10 +104,10 @@ CHECKS["C11"] = dict(
     quick=[dict(pkg="pure", test="TestC11", shards=14, checks=400, timeout=1200),
            dict(pkg="pure", test="TestC11Size", shards=2, checks=150, timeout=1200),
            dict(pkg="pure", test="TestC11Conc", race=True, shards=6, checks=12, timeout=1200, replay_tries=1)],
-    thorough=[dict(pkg="pure", test="TestC11", shards=16, checks=30000, timeout=14400),
+    thorough=[dict(pkg="pure", test="TestC11", shards=16, checks=15000, timeout=14400),
               dict(kind="fuzz", pkg="pure", fuzz="FuzzC11", test="TestC11", fuzztime=120),
               dict(pkg="pure", test="TestC11Size", shards=4, checks=3000, timeout=1800),
-              dict(pkg="pure", test="TestC11Conc", race=True, shards=16, checks=150, timeout=1800)],
+              dict(pkg="pure", test="TestC11Conc", race=True, shards=16, checks=80, timeout=14400)],
 )
 
 _LV_GEN = ("rapid draws a levelManager case: L0TargetNum 1..3, LevelRatio 1..3, DataBlockByteThreshold in "
@@ -114,7 +115,8 @@ _LV_GEN = ("rapid draws a levelManager case: L0TargetNum 1..3, LevelRatio 1..3, 
            "identical re-flush of an older batch / SetWatermark / CheckAndCompact / Recover. Batches are sorted sets of "
            "versioned entries in commit order (version ranges non-decreasing from batch to batch, a timestamp may straddle "
            "two batches, narrow one/two-key batches so that L1 grows and compactions cascade), 25% tombstones, unique value "
-           "tokens, some empty values; only table layouts reachable by flushToL0 + checkAndCompact + recover are produced. ")
+           "tokens, some empty values; only table layouts reachable by flushToL0 + checkAndCompact + recover are produced. One case in 400 is a bulk case: "
+           "tables of 8..20 MiB of incompressible data (values compared by length and digest), so that compactions move tens of MiB. ")
 
 CHECKS["C10"] = dict(
     level="exploration",
@@ -126,10 +128,10 @@ CHECKS["C10"] = dict(
           "must equal the brute-force best (largest version <= ts) over the entries the tables physically hold: same "
           "versioned key, value, tombstone flag, or not-found; before any compaction the tables must hold exactly the "
           "flushed multiset. Non-trivial: >= 2 tables, a table with >= 2 blocks, and a query whose answer lives in a "
-          "different table than the first one containing the key. Second leg: the small universe {a, a!, a@1} x versions "
-          "1..4 - every subset of the 12 entries x 5 split points into two version-ordered tables x block size {1 entry, "
-          "all} x {handles as built, handles rebuilt by Recover} = 81920 layouts x 42 queries (7 keys incl. absent ones "
-          "before/between/after x ts 0..5) - is ENUMERATED COMPLETELY in both tiers (non-trivial there: two tables, one "
+          "different table than the first one containing the key. Second leg: the small universe {a, a!, a@1} x four "
+          "versions ({1,2,3,4} or {1,2,10,12}: decimal texts that are prefixes of each other) - every subset of the 12 entries x 5 split points into two version-ordered tables x block size {1 entry, "
+          "all} x {handles as built, handles rebuilt by Recover} x 2 version sets = 163840 layouts x 54 / 81 queries (9 keys incl. absent ones "
+          "before/between/after x ts 0..5 / {0,1,2,3,9,10,11,12,13}) - is ENUMERATED COMPLETELY in both tiers (non-trivial there: two tables, one "
           "entry per block, >= 4 entries). Third leg (TestC10Twin): two levelManagers on two directories are driven concurrently in ONE "
           "process, each judged against its own brute-force oracle (state shared between stores of a process)."),
     assumptions=["table layouts are those reachable from flush batches in commit order (DESIGN.md G1)",
@@ -141,8 +143,8 @@ CHECKS["C10"] = dict(
     quick=[dict(pkg="lvl", test="TestC10", shards=16, checks=30, timeout=1200, gomaxprocs=1),
            dict(pkg="lvl", test="TestC10Twin", shards=8, checks=12, timeout=1200, gomaxprocs=4),
            dict(pkg="lvl", test="TestC10Exh", shards=16, checks=1, timeout=1200, gomaxprocs=1, env={"VERIF_EXH": "all", "VERIF_NSHARDS": 16})],
-    thorough=[dict(pkg="lvl", test="TestC10", shards=16, checks=2500, timeout=14400),
-              dict(pkg="lvl", test="TestC10Twin", shards=8, checks=250, timeout=14400, gomaxprocs=4),
+    thorough=[dict(pkg="lvl", test="TestC10", shards=16, checks=250, timeout=14400),
+              dict(pkg="lvl", test="TestC10Twin", shards=8, checks=80, timeout=14400, gomaxprocs=4),
               dict(pkg="lvl", test="TestC10Exh", shards=16, checks=1, timeout=1800, gomaxprocs=1, env={"VERIF_EXH": "all", "VERIF_NSHARDS": 16})],
 )
 
@@ -164,7 +166,7 @@ CHECKS["C09"] = dict(
     level_note="trusted: vlib.Best over the flushed multiset; watermark steering through the stub oracle's readMark (Done + VerifSync)",
     death_is_violation=True,
     quick=[dict(pkg="lvl", test="TestC09", shards=16, checks=260, timeout=1200, gomaxprocs=1)],
-    thorough=[dict(pkg="lvl", test="TestC09", shards=16, checks=4000, timeout=14400)],
+    thorough=[dict(pkg="lvl", test="TestC09", shards=16, checks=1000, timeout=14400)],
 )
 
 _E1_GEN = ("rapid draws a whole Program: Config (SkipListMaxLevel {0,1,2,4,9,12}, SkipListP {0..0.9}, MemtableByteThreshold "
@@ -175,7 +177,7 @@ _E1_GEN = ("rapid draws a whole Program: Config (SkipListMaxLevel {0,1,2,4,9,12}
            "read-only anomaly) with generated interleaving, FlusherStep(1..4)/FlusherRunToIdle (the background flusher is "
            "held at 4 lock-free gates and advanced only by these ops, so flush/compaction timing is a generated, "
            "replayable dimension), Reopen(cfg') (Close with flushes pending, View/Update on the closed handle, Open with "
-           "redrawn sizes and fixed level geometry), misuse calls, full-pool reads. Keys come from the trap pool with sibling-aware draws (pairs that only differ after 64/100 bytes, after a UTF-8 lead byte, around '@'); writes go through Set/Delete or SetEntry; value lengths 0..300 plus, one draw in 150, 5000/70000/140000 bytes (at most three such values per program). Rare modes: multi-MiB tables (1 in 80, C01/C02), many tables (150 keys, >= 11 tables per level, 1 in 400), marathon (up to 70000 commits, 1 in 800). The interpreter drives the real DB and "
+           "redrawn sizes and fixed level geometry), misuse calls, full-pool reads. Keys come from the trap pool with sibling-aware draws (pairs that only differ after 64/100 bytes, after a UTF-8 lead byte, around '@'); writes go through Set/Delete or SetEntry; value lengths 0..300 plus, one draw in 150, 5000/70000/140000 bytes (at most three such values per program). Padding bytes of values: one of x, NUL, 0xff, @, newline, 0x80, or incompressible pseudo-random bytes. Rare modes: multi-MiB tables (1 in 80, C01/C02), many tables (150 keys, wide levels with >= 11 tables or - ratio 1/2 - trees more than 10 levels deep; 1 in 400, C01/C02 1 in 200), marathon (up to 70000 commits, 1 in 800), long-lived transaction (C06/C07, 1 in 67: anomaly patterns while a transaction stays open during 40..2700 commits and ends, followed by one more commit, inside the pattern). The interpreter drives the real DB and "
            "the MVCC+SSI reference model side by side from one goroutine (so the model is exact), values are unique tokens "
            "naming their writer. Each check judges only the discrepancy kinds its property owns; others are counted as "
            "foreign. distinct = SHA-256 of the program JSON. ")
@@ -199,28 +201,28 @@ def _e1(prop, title, owns, nontriv, q_checks, t_checks, extra_assume=()):
             [dict(pkg="conc", test="Test" + prop + "Stress", shards=6, checks=(4 if prop == "C06" else 2), timeout=1200, gomaxprocs=8, parallel=6)] if prop in ("C05", "C06") else []),
         thorough=[dict(pkg="dbsm", test="Test" + prop, shards=16, checks=t_checks, timeout=14400),
                   dict(pkg="dbsm", test="Test" + prop, shards=16, checks=max(20, t_checks // 5), timeout=14400, env={"VERIF_FREE": "1"}, replay_tries=30)] + (
-            [dict(pkg="conc", test="Test" + prop + "Conc", race=True, shards=16, checks=40, timeout=14400, gomaxprocs=4)] if prop in ("C05", "C06", "C07") else []) + (
-            [dict(pkg="conc", test="Test" + prop + "Stress", shards=4, checks=12, timeout=14400, gomaxprocs=8, parallel=4)] if prop in ("C05", "C06") else []),
+            [dict(pkg="conc", test="Test" + prop + "Conc", race=True, shards=16, checks=25, timeout=14400, gomaxprocs=4)] if prop in ("C05", "C06", "C07") else []) + (
+            [dict(pkg="conc", test="Test" + prop + "Stress", shards=4, checks=8, timeout=14400, gomaxprocs=8, parallel=4)] if prop in ("C05", "C06") else []),
     )
 
 CHECKS["C01"] = _e1("C01", "Generated-history search against an exact model: every read in a fresh transaction must return the latest committed write, at whatever gate the flusher stands.",
     "reads in a transaction whose snapshot is the latest commit (after every commit a fresh View reads the keys just written, every 8th commit and at the end the whole pool, again after the flusher went idle) must equal the model's latest state.",
-    "the program read a key whose newest version had left the memtable (its memtable was flushed) AND read a deleted key whose tombstone had been flushed.", 110, 1800)
+    "the program read a key whose newest version had left the memtable (its memtable was flushed) AND read a deleted key whose tombstone had been flushed.", 110, 450)
 CHECKS["C02"] = _e1("C02", "Generated histories with close/reopen cycles: before/after differential plus model agreement for post-reopen writes.",
     "the full-pool read before Close must equal the full-pool read after Open (differential, independent of the model); fresh reads of keys written after a reopen must return the new data (also after later flushes, compactions, reopens); Open/Close must not fail or panic.",
-    "a reopen on a directory that held tables AND a post-reopen overwrite of a pre-reopen key read back after it left the memtable.", 110, 1800)
+    "a reopen on a directory that held tables AND a post-reopen overwrite of a pre-reopen key read back after it left the memtable.", 110, 450)
 CHECKS["C05"] = _e1("C05", "Generated interleavings with long-lived readers: every Get must equal snapshot-at-Begin overlaid with own writes; the same history is re-decided by porcupine as a split history.",
     "every Get in any live transaction (snapshot fixed at Begin, own buffer on top), re-read after every flusher step; dirty reads; the recorded history's split form (reads at Begin, writes at Commit) must be linearizable.",
-    "a transaction read, after its newer version had been flushed and a compaction had happened, a key that another transaction overwrote or deleted after its Begin.", 45, 1000)
+    "a transaction read, after its newer version had been flushed and a compaction had happened, a key that another transaction overwrote or deleted after its Begin.", 45, 600)
 CHECKS["C06"] = _e1("C06", "Generated interleavings incl. anomaly templates; the history of committed + read-only transactions must have a real-time-respecting serial order (porcupine), cross-checked by the exact model.",
     "porcupine verdict on the history (Unknown = inconclusive, counted), dirty reads.",
-    "overlapping read-write transactions with intersecting read/write sets of which at least one was refused (or would have been an anomaly).", 60, 1200)
+    "overlapping read-write transactions with intersecting read/write sets of which at least one was refused (or would have been an anomaly).", 60, 800)
 CHECKS["C07"] = _e1("C07", "Exact two-sided oracle for the Commit result in generated interleavings (boundaries: commit right before Begin, buffer reads, absent keys, deletes, rw transactions without writes, long histories).",
     "Commit/Update error vs the model's prediction in both directions (refused iff a store-read key was written by a transaction that committed after the snapshot).",
-    "a predicted-and-observed conflict AND a commit that succeeds although a concurrent transaction committed other keys.", 160, 2500)
+    "a predicted-and-observed conflict AND a commit that succeeds although a concurrent transaction committed other keys.", 160, 1500)
 CHECKS["C08"] = _e1("C08", "Generated abandonment (Discard, conflict, failing Update closure) and misuse, followed by flushes, compactions and restarts; token identity makes leaked writes directly visible.",
     "any read returning a token of a transaction that never committed; misuse calls must return the documented error (any applicable one) and Get not-found; Update must return the closure's own error; View/Update after Close must return ErrDBClosed without running the closure.",
-    "an abandoned write set (discard with writes / failed closure after writes) in a program that flushed and then reopened or compacted.", 110, 1800)
+    "an abandoned write set (discard with writes / failed closure after writes) in a program that flushed and then reopened or compacted.", 110, 1200)
 
 _E2_GEN = ("rapid draws a workload (Config with MemtableByteThreshold 60..20000, ImmutableBuffer 0..3, block 1/60/4096, "
            "L0TargetNum 1..2, LevelRatio 1..2 so that flushes and multi-level compactions happen; 6..12 trap-pool keys; 12..45 "
@@ -230,7 +232,7 @@ _E2_GEN = ("rapid draws a workload (Config with MemtableByteThreshold 60..20000,
            "with the real background flusher and, in snapshot mode, stores an image of the directory immediately before EVERY "
            "intercepted operation (= the state a process crash at that instant leaves: every completed operation persisted, "
            "the next one not started) together with the length of the CALL/ACK log at that instant and, per file, the "
-           "lengths covered by a completed fsync. Every image is recovered by Open in a FRESH child process. One workload in 20 carries one value of 1/5/9 MiB (values travel as digests). ")
+           "lengths covered by a completed fsync. Every image is recovered by Open in a FRESH child process. One workload in 20 carries one value of 1/5/9 MiB (values travel as digests); value lengths are classes or (one in three) any length 0..800, and one workload in eight sweeps 32..64 consecutive lengths, so that wal record and block sizes take every residue. Every third image - and every image of a crashed recovery - is recovered, the handle given up without a commit or Close (a process that dies right after recovery), and recovered again (up to three recoveries in a row) before it is judged by the same oracle. ")
 
 def _e2(prop, text, judged, nontriv, q, th):
     return dict(
@@ -250,13 +252,13 @@ def _e2(prop, text, judged, nontriv, q, th):
 
 CHECKS["C03"] = _e2("C03", "Systematic crash injection: all crash points of every generated run, crash sequences (crash again at every operation of a recovery), real SIGKILL cross-checks.",
     "Judged: (a) Open returns nil, no panic, exit 0; (b) every key reads the value of the last ACKed transaction that wrote it, or that of the transaction in flight at the crash; (c) nothing else; (d) on every n-th image the recovered store runs the follow-up workload, Closes, is reopened and must show the follow-up writes on top of what it showed after recovery. A generated subset of images is recovered under the interposer again and every image of THAT recovery is judged too (crash sequences); a generated sample of crash indices is re-run with a real SIGKILL.",
-    "the image still holds a wal (acknowledged data not yet in a table) or the crash fell into flush / compaction / recovery / Close.", 4, 40)
+    "the image still holds a wal (acknowledged data not yet in a table) or the crash fell into flush / compaction / recovery / Close.", 4, 6)
 CHECKS["C04"] = _e2("C04", "Crash injection with multi-key transactions; all-or-nothing oracle on the transaction in flight at the crash.",
     "Judged: for the transaction whose Commit had been called but had not returned at the crash, the keys on which its effect is observable read its new value on all of them or on none (workloads are biased to 2..5-key transactions; thresholds make commits straddle memtable rotations).",
-    "the crash fell while the Commit of a transaction that wrote >= 2 keys was in progress (any goroutine's operation between its CALL and ACK).", 6, 60)
+    "the crash fell while the Commit of a transaction that wrote >= 2 keys was in progress (any goroutine's operation between its CALL and ACK).", 6, 30)
 CHECKS["C14"] = _e2("C14", "Crash injection plus loss of unsynced tails: every image whose files have bytes beyond their last completed fsync is additionally cut.",
     "Judged: the C03 oracles (a)(b)(c)(d) on images in which files with bytes written after their last completed fsync were truncated: to the synced length (all such files at once), and per file to synced+{0,1,7,8,9}, written-{1,2,8,9}, the middle and 8 drawn positions (thorough: every length when the tail is <= 256 bytes). A failure counts for C14 only if the uncut image passes.",
-    "at least one byte was cut (always, by construction).", 2, 28)
+    "at least one byte was cut (always, by construction).", 2, 3)
 
 _E3_GEN = ("rapid draws a workload: 2..8 goroutines x 4..14 (or 5x as many) transactions on 3..6 hot trap-pool keys, scripts "
            "derived from a drawn seed (Begin/Get/Set/Delete/Commit/Discard or Update/View closures, read-only share, retry on "
@@ -270,8 +272,8 @@ CHECKS["C12"] = dict(
     technique="randomized concurrent workloads under the Go race detector, with recorded histories decided by porcupine (transactions as operations) and a watchdog",
     design_ref="DESIGN.md §7 C12",
     death_is_violation=True,
-    rule=(_E3_GEN + "Judged: no race report and no panic (process death is a violation, the input is the case file written "
-          "before the run), reads of own writes, and the history: split form (reads at Begin, writes at Commit) linearizable "
+    rule=(_E3_GEN + "Judged: no race report, no panic (process death is a violation, the input is the case file written "
+          "before the run) and no deadlock among the concurrent calls (goroutine-dump criterion: nothing of the engine or workload can run), reads of own writes, and the history: split form (reads at Begin, writes at Commit) linearizable "
           "(C05), committed + read-only transactions serializable in real-time order (C06), no refusal without an overlapping "
           "committed writer of a read key (C07, one-sided); histories over 130 transactions are only checked for over-aborts "
           "(counted). Non-trivial: >= 5 rotations and >= 2 flushes happened while >= 2 goroutines committed >= 5 transactions; "
@@ -282,8 +284,8 @@ CHECKS["C12"] = dict(
     level_note="trusted: Go race detector, porcupine, the history recording in conc_test.go",
     quick=[dict(pkg="conc", test="TestC12Conc", race=True, shards=8, checks=10, timeout=1800, gomaxprocs=4, parallel=8),
            dict(pkg="conc", test="TestC12Stress", shards=6, checks=2, timeout=1200, gomaxprocs=8, parallel=6)],
-    thorough=[dict(pkg="conc", test="TestC12Conc", race=True, shards=16, checks=50, timeout=14400, gomaxprocs=4),
-              dict(pkg="conc", test="TestC12Stress", shards=4, checks=12, timeout=14400, gomaxprocs=8, parallel=4)],
+    thorough=[dict(pkg="conc", test="TestC12Conc", race=True, shards=16, checks=35, timeout=14400, gomaxprocs=4),
+              dict(pkg="conc", test="TestC12Stress", shards=4, checks=8, timeout=14400, gomaxprocs=8, parallel=4)],
 )
 
 CHECKS["C15"] = dict(
